@@ -54,3 +54,176 @@ def job_modified_precision(tier, seed):
     else:
         res.update(verdict="HOLDS", detail="%d timestamp slots agree with the versioning assumptions" % n)
     return res
+
+
+# ---------------------------------------------------------------- C02.b / C03.b: every slot vs the frozen specification model (SMT)
+def _slot_formula(desc, v_int, v_str, v_kind, present, cls_of):
+    """accept-set of one slot as a z3 term over a value descriptor (kind tag, integer value, string value, presence)"""
+    K = desc["kind"]
+    conds = []
+    if "fixed" in desc and isinstance(desc["fixed"], str):
+        conds.append(v_str == z3.StringVal(desc["fixed"]))
+    if K in ("IntegerProperty", "FloatProperty"):
+        if desc.get("min") is not None:
+            conds.append(v_int >= int(desc["min"]))
+        if desc.get("max") is not None:
+            conds.append(v_int <= int(desc["max"]))
+    if K == "EnumProperty":
+        conds.append(z3.Or([v_str == z3.StringVal(a) for a in desc["allowed"]] or [z3.BoolVal(False)]))
+    if K == "TimestampProperty":
+        conds.append(v_str == z3.StringVal("%s/%s" % (desc.get("precision"), desc.get("constraint"))))
+    if K == "ReferenceProperty":
+        member = z3.Or([v_str == z3.StringVal(s) for s in desc["specifics"]] + [cls_of(v_str) == z3.StringVal(g) for g in desc["generics"]] +
+                       [z3.BoolVal(False)])
+        conds.append(member if desc["auth"] == "white" else z3.Not(member))
+    if K == "ObjectReferenceProperty" and desc.get("valid_types"):
+        conds.append(z3.Or([v_str == z3.StringVal(s) for s in desc["valid_types"]]))
+    if K == "HashesProperty":
+        conds.append(z3.Or([v_str == z3.StringVal(a) for a in desc["hash_names"]] or [z3.BoolVal(False)]))
+    if K == "IDProperty":
+        conds.append(v_str == z3.StringVal(desc["prefix"]))
+    if desc.get("spec_version") is not None and K in ("DictionaryProperty", "ExtensionsProperty", "HashesProperty", "ObservableProperty",
+                                                        "STIXObjectProperty", "IDProperty", "TypeProperty", "ReferenceProperty"):
+        conds.append(v_kind == z3.StringVal("sv:" + str(desc["spec_version"])))
+    ok_value = z3.And(conds) if conds else z3.BoolVal(True)
+    # absent is acceptable iff the property is not required (a default supplies the value)
+    return z3.If(present, ok_value, z3.BoolVal(not desc["required"]))
+
+
+def _shape(desc):
+    """structural signature that must agree exactly (kind, nesting, optional-default bookkeeping)"""
+    d = {k: desc.get(k) for k in ("kind", "has_default", "class")}
+    if "contained" in desc:
+        d["contained"] = _shape(desc["contained"]) if "kind" in desc["contained"] and desc["contained"]["kind"] != "object" else desc["contained"]
+    if "fixed" in desc and not isinstance(desc["fixed"], str):
+        d["fixed"] = desc["fixed"]
+    return d
+
+
+def replay_slot(ver, cat, typ, pname):
+    """live slot vs frozen model, observed through the REAL property object: boundary probes derived from both descriptions are cleaned
+    by the live property and judged by the independent validator of the frozen description; acceptance must agree."""
+    from props import gen, specmodel
+    from stix2 import registry
+    frozen = specmodel.frozen_model()
+    fdesc = frozen[ver][cat][typ]["props"].get(pname)
+    cls = registry.STIX2_OBJ_MAPS[ver][cat][typ] if cat != "embedded" else None
+    if cls is None:
+        live = specmodel.live_model()[ver][cat].get(typ, {}).get("props", {}).get(pname)
+        return live == fdesc
+    prop = cls._properties.get(pname)
+    if (prop is None) != (fdesc is None):
+        return False
+    ldesc = specmodel.describe(prop)
+    if _shape(ldesc) != _shape(fdesc) or ldesc["required"] != fdesc["required"]:
+        return False
+    probes = []
+    for d in (ldesc, fdesc, ldesc.get("contained") or {}, fdesc.get("contained") or {}):
+        for k in ("min", "max"):
+            if d.get(k) is not None:
+                probes += [d[k] - 1, d[k], d[k] + 1]
+        probes += list(d.get("allowed") or [])
+        for t in (d.get("specifics") or []):
+            probes.append("%s--%s" % (t, gen.UU))
+    if fdesc["kind"] in ("IntegerProperty", "FloatProperty") or (fdesc.get("contained") or {}).get("kind") in ("IntegerProperty",):
+        probes += [-1, 0, 100, 101, 65535, 65536]
+    if fdesc["kind"] == "ReferenceProperty" or (fdesc.get("contained") or {}).get("kind") == "ReferenceProperty":
+        probes += ["%s--%s" % (t, gen.UU) for t in gen.REF_PREF]
+    elem = fdesc.get("contained") if fdesc["kind"] == "ListProperty" else None
+    for v in probes:
+        val = [v] if elem is not None else v
+        try:
+            prop.clean(val, False)
+            got = True
+        except Exception:  # noqa: BLE001
+            got = False
+        try:
+            specmodel.check_value(fdesc, val, frozen, ver, pname)
+            want = True
+            if (elem or fdesc)["kind"] == "ReferenceProperty":
+                want = _ref_accepts(elem or fdesc, v)
+        except specmodel.Invalid:
+            want = False
+        if got != want:
+            return False
+    return ldesc == fdesc
+
+
+def _ref_accepts(desc, value):
+    """frozen reference rule evaluated on a concrete id (type classes from the frozen model's own registries)"""
+    from props import specmodel
+    m = specmodel.frozen_model()
+    t = value.split("--", 1)[0]
+    ver = desc.get("spec_version") or "2.1"
+    cls = None
+    if t in m[ver]["observables"]:
+        cls = "SCO"
+    elif t in ("relationship", "sighting"):
+        cls = "SRO"
+    elif t in m[ver]["objects"] and t not in ("bundle", "marking-definition", "language-content", "extension-definition"):
+        cls = "SDO"
+    member = t in desc["specifics"] or (cls in desc["generics"])
+    return member if desc["auth"] == "white" else not member
+
+
+def job_slot_model(tier, seed):
+    """C02.b / C03.b: for every slot of every class of both registries (and embedded types) the LIVE Property instance is introspected and its
+    accept-set compared with the frozen specification model by z3: exists v. impl(v) and not spec(v) (C02) and the converse (C03)."""
+    from props import specmodel
+    t0 = time.time()
+    frozen, live = specmodel.frozen_model(), specmodel.live_model()
+    v_int, present = z3.Int("v"), z3.Bool("present")
+    v_str, v_kind = z3.String("s"), z3.String("k")
+    cls_of = z3.Function("cls_of", z3.StringSort(), z3.StringSort())
+    q, n, cands, samples = 0, 0, [], []
+    for ver in sorted(frozen):
+        for cat in sorted(frozen[ver]):
+            for typ in sorted(set(frozen[ver][cat]) | set(live.get(ver, {}).get(cat, {}))):
+                fz = frozen[ver][cat].get(typ)
+                lv = live.get(ver, {}).get(cat, {}).get(typ)
+                if fz is None or lv is None:
+                    if fz is not None:          # a class disappeared from the live registry
+                        cands.append({"call": "replay_slot(%r, %r, %r, 'type')" % (ver, cat, typ), "desc": "%s %s %s missing from live registry" % (ver, cat, typ)})
+                    continue                    # classes only in the live registry are custom registrations (C19)
+                if fz["order"] != lv["order"]:
+                    first = next((a for a, b in zip(fz["order"] + [None], lv["order"] + [None]) if a != b), None)
+                    cands.append({"call": "replay_slot(%r, %r, %r, %r)" % (ver, cat, typ, first or fz["order"][0]),
+                                  "desc": "%s %s: property set/order differs from the specification order at %r" % (ver, typ, first)})
+                for pname in fz["order"]:
+                    fd, ld = fz["props"][pname], lv["props"].get(pname)
+                    n += 1
+                    if ld is None:
+                        continue
+                    if _shape(fd) != _shape(ld):
+                        cands.append({"call": "replay_slot(%r, %r, %r, %r)" % (ver, cat, typ, pname), "desc": "%s %s.%s: kind/structure differs" % (ver, typ, pname)})
+                        continue
+                    pairs = [(fd, ld)]
+                    if "contained" in fd and fd["contained"].get("kind") != "object":
+                        pairs.append((fd["contained"], ld["contained"]))
+                    for f_, l_ in pairs:
+                        impl = _slot_formula(l_, v_int, v_str, v_kind, present, cls_of)
+                        spec = _slot_formula(f_, v_int, v_str, v_kind, present, cls_of)
+                        for direction, a, b in (("C02 impl accepts, spec refuses", impl, spec), ("C03 spec accepts, impl refuses", spec, impl)):
+                            s = z3.Solver()
+                            s.add(a, z3.Not(b))
+                            q += 1
+                            r = str(s.check())
+                            if r == "sat":
+                                cands.append({"call": "replay_slot(%r, %r, %r, %r)" % (ver, cat, typ, pname),
+                                              "desc": "%s %s.%s: %s (witness %s)" % (ver, typ, pname, direction, str(s.model())[:120])})
+                            elif r != "unsat":
+                                return {"verdict": "INCONCLUSIVE", "detail": "solver %s on %s.%s" % (r, typ, pname)}
+                            elif len(samples) < 3 and direction.startswith("C02") and ("min" in f_ or "allowed" in f_):
+                                samples.append({"slot": "%s %s.%s" % (ver, typ, pname), "query": "impl(v) and not spec(v)", "result": "unsat"})
+    seen, out = set(), []
+    for c in cands:
+        if c["call"] not in seen:
+            seen.add(c["call"])
+            out.append(c)
+    res = {"paths": n, "decisions": n, "queries": q, "solver_s": round(time.time() - t0, 2), "reached": n > 0, "validated": 0, "samples": samples,
+           "extra": {"slots": n, "classes": sum(len(frozen[v][c]) for v in frozen for c in frozen[v]), "wall_s": round(time.time() - t0, 1)}}
+    if out:
+        res.update(verdict="CANDIDATE", candidates=out[:40], detail="%d slot(s) differ from the frozen model: %s" % (len(out), "; ".join(c["desc"] for c in out[:3])))
+    else:
+        res.update(verdict="HOLDS", detail="%d slots agree with the frozen specification model" % n)
+    return res
